@@ -20,6 +20,8 @@ from ..fsutil import Scratch
 
 ATOMS = [
     ("assign", "{n} = 1"), ("annassign", "{n}: int = 1"), ("augassign", "{n} = 0\n{n} += 1"), ("tuple-target", "({n}, c) = (1, 2)"),
+    ("starred-in-tuple", "c, *{n} = [1, 2]"), ("starred-in-paren-tuple", "(c, *{n}) = [1, 2]"), ("for-starred", "for c, *{n} in [[1, 2]]:\n    pass"),
+    ("with-starred", "with open('f') as (c, *{n}):\n    pass"),
     ("star-target", "[{n}, *c] = [1, 2]"), ("starred-name", "[c, *{n}] = [1, 2]"), ("for", "for {n} in []:\n    pass"),
     ("for-tuple", "for ({n}, c) in []:\n    pass"), ("for-else", "for c in []:\n    pass\nelse:\n    {n} = 1"),
     ("with", "with open('f') as {n}:\n    pass"), ("with-tuple", "with open('f') as ({n}, c):\n    pass"),
@@ -47,7 +49,8 @@ ATOMS = [
 ]
 PARAMS = [("p-normal", "{n}"), ("p-default", "{n}=1"), ("p-posonly", "{n}, /"), ("p-kwonly", "*, {n}"), ("p-kwonly-default", "*, {n}=1"),
           ("p-vararg", "*{n}"), ("p-kwarg", "**{n}"), ("p-mixed", "c, /, d, *e, {n}, **f"), ("p-annotated", "{n}: int"), ("p-none", "")]
-CHAINS = ["", "F", "C", "FF", "FC", "CF", "CC", "FFF", "FCF", "CFF", "CFC", "FFC"]
+# F function, C class, P method decorated with @property, S function decorated with @staticmethod
+CHAINS = ["", "F", "C", "FF", "FC", "CF", "CC", "FFF", "FCF", "CFF", "CFC", "FFC", "CP", "CS", "S", "CPF", "CPC", "FCP", "CSF"]
 
 
 def indent(s, n):
@@ -67,6 +70,12 @@ def make_program(chain, atom_src, outer, params, use):
         if k == "F":
             ptxt = params if innermost else "q%d" % i
             lines.append(indent("def f%d(%s):" % (i, ptxt), ind))
+        elif k == "P":
+            lines.append(indent("@property", ind))
+            lines.append(indent("def f%d(self):" % i, ind))
+        elif k == "S":
+            lines.append(indent("@staticmethod", ind))
+            lines.append(indent("def f%d(q%d):" % (i, i), ind))
         else:
             lines.append(indent("class K%d:" % i, ind))
         ind += 4
@@ -86,7 +95,7 @@ def make_program(chain, atom_src, outer, params, use):
 class C15(Check):
     pid = "C15"
     level = "exploration"
-    rule = ("cases = (scope chain in 12 chains of function/class nesting to depth 3, binding atom in 56 constructs binding name a, "
+    rule = ("cases = (scope chain in 19 chains of function/class nesting to depth 3 incl. methods decorated with @property/@staticmethod, binding atom in 60 constructs binding name a, "
             "names bound by the enclosing levels in {none, a, b, a+b} uniformly, or independently {none, a+b} per level, parameter "
             "list of the innermost function in 10 kinds, a trailing statement reading a, b and c); programs that CPython rejects "
             "are dropped; evaluations = sub-checks per program: scope tree (kinds and line extents), owned names per scope, "
